@@ -35,11 +35,11 @@ from props import repair
 HEADER = """From Coercion.Base Require Import Plan.
 From Coercion.Engine Require Import Shape Event.
 From Coercion.Resume Require Import Resume MonRecover ResumeCheck.
-Definition known : devs := {| dev_R2 := %s; dev_R3 := %s; dev_R5 := %s; dev_R6 := %s; dev_R7 := %s |}.
+Definition known : devs := {| dev_R2 := %s; dev_R3 := %s; dev_R5 := %s; dev_R6 := %s |}.
 Definition chk := check_rcase known.
 Definition okf := rcase_ok known."""
 
-FLAGS = {2: "R2", 3: "R3", 5: "R5", 6: "R6", 7: "R7"}   # R4 is a C11 finding, not ours
+FLAGS = {2: "R2", 3: "R3", 5: "R5", 6: "R6"}   # R4 (C11) and R7 (C10, fixed by 0c944e8) have no flag
 WHAT = {
     "R2": "interrupted check-group run is not repaired by recovery (a check action stays Running / its group keeps the "
           "interrupted run's Start / deferred groups are skipped when recovery short-circuits to End)",
@@ -47,8 +47,6 @@ WHAT = {
     "R5": "a sequence repaired in memory is not written before its block's terminal write: after a second crash it stays "
           "Running inside a finished block (fixBlock ignores blocks that are not Running)",
     "R6": "plan-level continuous group durably Failed: Recovery goes to End and abandons the block that was executing (left Running)",
-    "R7": "BlockPreChecks skips the initial continuous-check run of a recovered block whose pre group is Completed: its sequences run "
-          "ungated and the plan can end Completed where the uninterrupted run ends Failed",
 }
 RPH = ["RIdle", "RRecover", "RRun"]
 PPH = ["PStart", "PBypass", "PPre", "PBlocks", "PPost", "PDeferred", "PEnd", "PReleased"]
@@ -85,7 +83,7 @@ def known_flags():
 
 def header(known):
     b = lambda x: "true" if x in known else "false"
-    return HEADER % (b("R2"), b("R3"), b("R5"), b("R6"), b("R7"))
+    return HEADER % (b("R2"), b("R3"), b("R5"), b("R6"))
 
 
 def describe_reject(r):
@@ -146,21 +144,30 @@ def harness(ctx, plans, frm, double, file_pct, kills, out_name, only=None):
     return ctx.harness("recover", args, out_name=out_name, timeout=3000)
 
 
-BATCH = 4000     # cases per Coq evaluation round (16 shards): bounds the memory of the coqc processes
+BATCH_BYTES = 5_000_000     # text of the case terms per Coq evaluation round (16 shards): bounds the memory of the
+                            # coqc processes (measured: ~11 MB of resident memory per 14 KB of term text)
 
 
 def evaluate(ctx, tag, cases, known):
     live = [c for c in cases if c.get("coq")]
     res, infos = [], []
-    for k in range(0, len(live), BATCH):
-        part = live[k:k + BATCH]
-        work = os.path.join(ctx.work, "coq_%s_%d" % (tag, k // BATCH))
+    batches, cur, sz = [], [], 0
+    for c in live:
+        if cur and sz + len(c["coq"]) > BATCH_BYTES:
+            batches.append(cur)
+            cur, sz = [], 0
+        cur.append(c)
+        sz += len(c["coq"])
+    if cur:
+        batches.append(cur)
+    for k, part in enumerate(batches):
+        work = os.path.join(ctx.work, "coq_%s_%d" % (tag, k))
         r, i = fw.eval_cases(work, "resume", header(known), "rcase", "chk", "okf", [c["coq"] for c in part])
         res += r
         for x in i:
-            x["shard"] = x["shard"] + 16 * (k // BATCH)
+            x["shard"] = x["shard"] + 16 * k
         infos += i
-        if len(live) > BATCH and not os.environ.get("VERIF_KEEP"):
+        if len(batches) > 1 and not os.environ.get("VERIF_KEEP"):
             import shutil
             shutil.rmtree(work, ignore_errors=True)
     return live, res, infos
@@ -226,7 +233,7 @@ def run_check(ctx, which, plans_quick, plans_thorough, frm, double_quick=4, doub
 
 
 def say_known(ctx, fid, n, example):
-    pid, ctx.pid = ctx.pid, "C10"          # R2, R3, R5, R6, R7 are findings of C10
+    pid, ctx.pid = ctx.pid, "C10"          # R2, R3, R5, R6 are findings of C10
     ctx.known(fid, "%s [%d recoveries of this run need the flag, e.g. %s]" % (WHAT[fid], n, example))
     ctx.pid = pid
 
